@@ -166,6 +166,16 @@ func init() {
 			i.w.usesSched = true
 			return nil
 		},
+		"vPreemptAtChans": func(i *interpreter, fr *frame, fn *ssa.Function, a []value) value {
+			i.w.preemptLeft = int(asInt64(a[0]))
+			i.w.usesSched = true
+			i.w.preemptChans = true
+			return nil
+		},
+		"vSettle": func(i *interpreter, fr *frame, fn *ssa.Function, a []value) value {
+			i.settle()
+			return nil
+		},
 		"vPreemptOn": func(i *interpreter, fr *frame, fn *ssa.Function, a []value) value {
 			mu, ok := a[0].(iface).v.(*value)
 			if !ok || mu == nil {
